@@ -106,6 +106,12 @@ def axioms_of(text):
 
 
 # ---------------------------------------------------------------- streams
+class HarnessCrash(Exception):
+    def __init__(self, cmd, inp, msg):
+        Exception.__init__(self, msg)
+        self.cmd, self.inp, self.msg = cmd, inp, msg
+
+
 def run_stream(root, workdir, cmd, seed, n, extra_args=()):
     out = os.path.join(workdir, cmd)
     shutil.rmtree(out, ignore_errors=True)
@@ -113,6 +119,15 @@ def run_stream(root, workdir, cmd, seed, n, extra_args=()):
     rc, log, _ = sh([os.path.join(root, 'build', 'vh'), cmd, '-seed', str(seed), '-n', str(n), '-out', out] + list(extra_args),
                     timeout=3000)
     if rc != 0:
+        cur = os.path.join(out, 'current.json')
+        if os.path.exists(cur) and ('fatal error' in log or 'stack overflow' in log or 'signal' in log):
+            # the library killed the process in a way no recover can catch: a violation of its own, with its input
+            try:
+                inp = json.load(open(cur))
+            except Exception:
+                inp = None
+            i = log.find('fatal error')
+            raise HarnessCrash(cmd, inp, log[max(0, i):i + 600] if i >= 0 else log[-600:])
         return None, 'harness command %s failed rc=%d\n%s' % (cmd, rc, log[-3000:])
     return out, ''
 
@@ -350,6 +365,10 @@ def run(root, pid, tier, seed, replay):
                            'detail': {'log': pr['log'][-3000:], 'hygiene': pr.get('hygiene'), 'first_build_error': build_error}, 'no_input': True})
     try:
         found = P['run'](ctx)
+    except HarnessCrash as hc:
+        found = [{'key': input_key(hc.inp), 'kind': 'process-killed',
+                  'text': 'the library killed the process (no recover possible) while the harness command %s ran the recorded input: %s' % (hc.cmd, ' '.join(hc.msg.split())[:300]),
+                  'detail': {'corpus_entry': hc.inp, 'fatal': hc.msg}}]
     except Exception as e:  # machinery error, not a verdict
         import traceback
         traceback.print_exc()
